@@ -986,9 +986,12 @@ class FileStorage(
                     if not current_data:
                         current_data = self._loadBack_impl(oid, cdataptr)[0]
 
-                    if data_to_be_undone != current_data:
+                    if data_to_be_undone != current_data or \
+                            self.is_blob_record(current_data):
                         # OK, so the current data is different from
-                        # the data being undone.  We can't just copy:
+                        # the data being undone (the records of a blob
+                        # are all alike: its revisions differ in their
+                        # files).  We can't just copy:
                         copy = False
 
                         if not pre:
